@@ -20,6 +20,22 @@ CALLSWAP = {'gt': 'lt', 'ge': 'le'}
 
 def canon_cond(w, lab):
     """Canonical (text, truth) of a boolean condition; enum switches stay (text, variant label)."""
+    if isinstance(w, tuple) and w and w[0] == 'try' and lab in ('Continue', 'Break'):
+        # `x?` is the test "x is Ok/Some": rendered like an explicit match on x.  Wrappers that only decorate the error
+        # (with_span, with_file, map_err) are dropped; ok_or / ok_or_else(o, ..)? is the test "o is Some"
+        kind = w[2] if len(w) > 2 else 'R'
+        x = w[1]
+        for _ in range(8):
+            if is_call(x) and (x[1].split('::')[-1] in ('with_span', 'with_file', 'map_err') or (x[1].split('::')[-1] == 'map' and ('Result' in x[1] or 'Option' in x[1]))) and x[2]:
+                x = x[2][0]
+                continue
+            if is_call(x) and x[1].split('::')[-1] in ('ok_or', 'ok_or_else') and x[2]:
+                x = x[2][0]
+                kind = 'O'
+                continue
+            break
+        good, bad = ('Some', 'None') if kind == 'O' else ('Ok', 'Err')
+        return (N(strip(x)), good if lab == 'Continue' else bad)
     while isinstance(w, tuple) and w and w[0] == 'try':
         w = w[1]
     inst = w[3] if (isinstance(w, tuple) and w and w[0] == 'call' and len(w) > 3) else ''
@@ -36,9 +52,9 @@ def canon_cond(w, lab):
                 op, a, b = SWAP[op], b, a
             if op == 'Ne':
                 op, truth = 'Eq', not truth
-            if op == 'Eq' and S(a) > S(b):
+            if op == 'Eq' and N(a) > N(b):
                 a, b = b, a
-            return ('%s(%s, %s)' % (op, S(a), S(b)), 'T' if truth else 'F')
+            return ('%s(%s, %s)' % (op, N(a), N(b)), 'T' if truth else 'F')
         if is_call(w):
             last = w[1].split('::')[-1]
             if last in ('ne', 'eq', 'lt', 'le', 'gt', 'ge') and len(w[2]) == 2:
@@ -51,11 +67,81 @@ def canon_cond(w, lab):
                     last, a, b = CALLSWAP[last], b, a
                 if last == 'ne':
                     last, truth = 'eq', not truth
-                if last == 'eq' and S(a) > S(b):
+                if last == 'eq' and N(a) > N(b):
                     a, b = b, a
-                return ('%s%s(%s, %s)' % (last, ty, S(a), S(b)), 'T' if truth else 'F')
-        return (S(w), 'T' if truth else 'F')
-    return (S(w), lab)
+                return ('%s%s(%s, %s)' % (last, ty, N(a), N(b)), 'T' if truth else 'F')
+        return (N(w), 'T' if truth else 'F')
+    return (N(w), lab)
+
+
+DECOR = ('with_span', 'with_file', 'map_err', 'ok_or', 'ok_or_else')
+
+
+_FX = [None]      # facts of the current run (set by decision_table) for closure look-through in norm()
+_ETA = {}
+
+
+def _eta(path):
+    """`|x| f(x)` (no captures, one path, no conditions) is f itself."""
+    fx = _FX[0]
+    key = (id(fx), path)
+    if key in _ETA:
+        return _ETA[key]
+    out = None
+    cf = fx.F.get(path) if fx is not None else None
+    if cf is not None:
+        res = Explorer(cf, facts=fx, max_paths=8).run()
+        if len(res) == 1 and res[0][0] == 'RET' and not res[0][1].conds:
+            r = res[0][2]
+            if isinstance(r, tuple) and r and r[0] == 'call' and list(r[2]) == [('param', i, cf.names.get(i + 1, 'arg%d' % i)) for i in range(1, cf.argc)]:
+                out = ('fn', r[1], r[3] if len(r) > 3 else '')
+    _ETA[key] = out
+    return out
+
+
+def norm(v):
+    """Rendering form of a value inside a decision row: the payload of an Option/Result is written like the Option/Result
+    itself (`x@Some.0`, `x?` and `x.ok_or(e)?` all read `x`) and error decorations are dropped, so that `?`, `ok_or(..)?` and
+    an explicit `match` give the same text.  Which error is raised is part of the row outcome, not of the values."""
+    if not isinstance(v, tuple) or not v:
+        return v
+    if v[0] == 'field' and len(v) == 3 and v[2] == '0' and isinstance(v[1], tuple) and v[1] and v[1][0] == 'down' and v[1][2] in ('Some', 'Ok'):
+        return norm(v[1][1])
+    if v[0] == 'call' and v[1].split('::')[-1] in DECOR and v[2]:
+        return norm(v[2][0])
+    if v[0] == 'call' and v[1].split('::')[-1] == 'map' and len(v[2]) == 2 and ('Result' in v[1] or 'Option' in v[1]):
+        f = norm(v[2][1])
+        if isinstance(f, tuple) and f and f[0] == 'fn' and re.match(r'^[A-Z]', f[1].split('::')[-1]) and '<' not in f[1]:
+            # x.map(Ctor) read as the payload: Ctor(x)
+            return ('agg', 'adt:' + f[1], (norm(v[2][0]),))
+    if v[0] == 'agg' and v[1].startswith('closure:') and not v[2]:
+        e = _eta(v[1][8:])
+        if e is not None:
+            return e
+    if v[0] == 'try':
+        return norm(v[1])
+    out = tuple(norm(x) if isinstance(x, tuple) else x for x in v)
+    if out[0] == 'call' and isinstance(out[1], str) and out[1].endswith('::write_fmt') and len(out[2]) == 2 and is_call(out[2][1]) and out[2][1][1].endswith('::from_str') and 'Arguments' in out[2][1][1]:
+        # write!(f, "literal") = f.write_str("literal")
+        out = (out[0], out[1][:-len('write_fmt')] + 'write_str', (out[2][0], out[2][1][2][0])) + out[3:]
+    if out[0] == 'call' and isinstance(out[1], str):
+        # `new`, `get`, `from_str` .. of different types read the same by their last segment: keep the type of inherent methods
+        m = re.match(r'^(?:\w+::)*([A-Z]\w*)(?:::<[^>]*>)?::(\w+)$', out[1])
+        if m and '.' not in out[1]:
+            out = (out[0], 'q::%s.%s' % (m.group(1), m.group(2))) + out[2:]
+    return out
+
+
+def N(v):
+    return S(norm(v))
+
+
+def _clip(t, n):
+    """Shorten a rendering without losing its identity."""
+    if len(t) <= n:
+        return t
+    import hashlib
+    return t[:n] + '…#' + hashlib.sha1(t.encode()).hexdigest()[:8]
 
 
 def callee_chain(v, depth=0):
@@ -70,7 +156,7 @@ def outcome(kind, ret):
         if rk == 'err' or (ev and rk != 'ok'):
             return 'err:' + ','.join(ev)
         if rk == 'residual':
-            return 'residual'
+            return 'err:' + ','.join(ev)
         if rk == 'ok':
             v = ret[2][0] if ret[2] else None
             if isinstance(v, tuple) and v and v[0] == 'agg':
@@ -88,16 +174,36 @@ def outcome(kind, ret):
     return kind.lower()
 
 
-FULL = re.compile(r'^(<types::StructuralType as types::TypeConstructible>::\w+(::\{closure#\d+\})*|<value::StructuralValue as value::ValueConstructible>::\w+(::\{closure#\d+\})*|<value::Value as value::ValueConstructible>::\w+(::\{closure#\d+\})*|<types::ResolvedType as types::TypeConstructible>::\w+|value::destruct::\w+(::\{closure#\d+\})*|<value::StructuralValue as std::convert::From<(bool|value::UIntValue)>>::from|<types::StructuralType as std::convert::From<types::UIntType>>::from|array::\w+::<.*>::(fold|unfold|from_slice|is_complete)|<array::\w+<.*> as miniscript::iter::TreeLike>::as_node|debug::(DebugSymbols::insert|remove_excess_whitespace|CallTracker::(track_call|with_file|get_cmr|next_id_cmr)|TrackedCall::map_value)(::\{closure#\d+\})*|<A as parse::ParseFromStr>::parse_from_str|TemplateProgram::new|TemplateProgram::instantiate|CompiledProgram::new|<value::Value as std::fmt::Display>::fmt(::\{closure#\d+\})*|<parse::ExprTree<\'_> as std::fmt::Display>::fmt|types::TypeInner::<A>::display|<pattern::Pattern as std::fmt::Display>::fmt|error::Span::to_slice|<error::RichError as std::fmt::Display>::fmt|<witness::(WitnessValues|Arguments) as std::fmt::Display>::fmt|<witness::(WitnessValues|Arguments) as parse::ParseFromStr>::parse_from_str(::\{closure#\d+\})*|value::Value::parse_from_str|witness::<impl parse::ParseFromStr for types::ResolvedType>::parse_from_str)$')
+ACCESSORS = r"^(<.* as miniscript::iter::TreeLike>::as_node|<types::\w+ as types::TypeDeconstructible>::\w+|types::TypeDeconstructible::is_unit|parse::MatchPattern::as_\w+|pattern::BasePattern::(as_identifier|is_ignore)|types::AliasedType::as_(alias|builtin)|types::UIntType::two_n|value::UIntValue::(get_type|is_of_type)|<value::UIntValue as std::convert::From<(u\d+|num::U256)>>::from|<types::BuiltinAlias as std::str::FromStr>::from_str|ast::Program::analyze::\{closure#\d+\}|ast::analyze_named_module::\{closure#\d+\})$"
+FULL = re.compile(r'^(ast::Scope::\w+(::\{closure#\d+\})*|<(parse|str|types|value|num|error)::\w+ as std::fmt::Display>::fmt(::\{closure#\d+\})*|<.* as parse::PestParse>::parse(::\{closure#\d+\})*|<types::StructuralType as types::TypeConstructible>::\w+(::\{closure#\d+\})*|<value::StructuralValue as value::ValueConstructible>::\w+(::\{closure#\d+\})*|<value::Value as value::ValueConstructible>::\w+(::\{closure#\d+\})*|<types::ResolvedType as types::TypeConstructible>::\w+|value::destruct::\w+(::\{closure#\d+\})*|<value::StructuralValue as std::convert::From<(bool|value::UIntValue)>>::from|<types::StructuralType as std::convert::From<types::UIntType>>::from|array::\w+::<.*>::(fold|unfold|from_slice|is_complete)|<array::\w+<.*> as miniscript::iter::TreeLike>::as_node|debug::(DebugSymbols::insert|remove_excess_whitespace|CallTracker::(track_call|with_file|get_cmr|next_id_cmr)|TrackedCall::map_value)(::\{closure#\d+\})*|<A as parse::ParseFromStr>::parse_from_str|TemplateProgram::new|TemplateProgram::instantiate|CompiledProgram::new|<value::Value as std::fmt::Display>::fmt(::\{closure#\d+\})*|<parse::ExprTree<\'_> as std::fmt::Display>::fmt|types::TypeInner::<A>::display|<pattern::Pattern as std::fmt::Display>::fmt|error::Span::to_slice|<error::RichError as std::fmt::Display>::fmt|<witness::(WitnessValues|Arguments) as std::fmt::Display>::fmt|<witness::(WitnessValues|Arguments) as parse::ParseFromStr>::parse_from_str(::\{closure#\d+\})*|value::Value::parse_from_str|witness::<impl parse::ParseFromStr for types::ResolvedType>::parse_from_str)$')
 
 
-def decision_table(ctx, fn, max_visits=1, full=None):
+def unq(t):
+    """Rendering without the type qualifiers of inherent methods (for rules that look for a text inside a row)."""
+    return re.sub(r'\b[A-Z]\w*\.(?=\w+\()', '', t) if isinstance(t, str) else t
+
+
+def decision_table(ctx, fn, max_visits=1, full=None, plain=False):
     """full: also havoc loop-carried variables at loop heads, record every call with its arguments (`trace`) and the
     final values of the loop-carried variables (`state`): used for printers and the text/debug-symbol plumbing."""
     if full is None:
-        full = bool(FULL.match(fn.path))
+        full = bool(FULL.match(fn.path) or re.match(ACCESSORS, fn.path))
     rows = []
-    for kind, p, ret in explore(ctx, fn, max_visits=max_visits, havoc=full, max_paths=6000):
+    fx = ctx.facts()
+    _FX[0] = fx
+
+    def with_closure_errors(v):
+        """Error variants constructed inside closures handed to ok_or_else / map_err are part of the outcome."""
+        extra = []
+        for x in walk(v):
+            if x[0] == 'agg' and x[1].startswith('closure:'):
+                cf = fx.F.get(x[1][8:])
+                if cf is not None:
+                    for k2, p2, r2 in Explorer(cf, facts=fx, max_paths=64).run():
+                        if k2 == 'RET' and isinstance(r2, tuple):
+                            extra += err_variants(r2)
+        return extra
+    for kind, p, ret in explore(ctx, fn, max_visits=max_visits, havoc=full, max_paths=6000, follow_break=True):
         if p is None:
             rows.append({'conds': ['<path explosion>'], 'checks': [], 'out': 'toomany'})
             continue
@@ -110,14 +216,33 @@ def decision_table(ctx, fn, max_visits=1, full=None):
                 if len(s) > 260:
                     s = s[:260] + '…'
                 checks.append(s)
-        out = outcome(kind, ret)
+        out = outcome(kind, norm(ret) if ret_kind(ret) != 'residual' else ret)
+        if kind == 'RET' and isinstance(ret, tuple) and ret_kind(ret) == 'residual':
+            # the error raised by the failing `?`: named by the decoration closest to the `?` (map_err / ok_or / ok_or_else)
+            x = ret[1]
+            for sub in walk(ret):
+                if sub[0] == 'try':
+                    x = sub
+                    break
+            while isinstance(x, tuple) and x and x[0] == 'try':
+                x = x[1]
+            vs = []
+            for _ in range(8):
+                if not is_call(x) or x[1].split('::')[-1] not in DECOR or not x[2]:
+                    break
+                last = x[1].split('::')[-1]
+                if last in ('map_err', 'ok_or', 'ok_or_else') and len(x[2]) > 1:
+                    vs = err_variants(x[2][1]) + with_closure_errors(x[2][1])
+                    break
+                x = x[2][0]
+            out = 'err:' + ','.join(dict.fromkeys(vs))
         effects = []
         for e in p.events:
             if e[0] == 'call' and e[1].startswith('ast::Scope::') and e[1].split('::')[-1] in SCOPE_EFFECTS:
-                effects.append('%s(%s)' % (e[1].split('::')[-1], ', '.join(S(a)[:80] for a in e[2][1:])))
+                effects.append('%s(%s)' % (e[1].split('::')[-1], ', '.join(_clip(N(a), 80) for a in e[2][1:])))
         val = ''
-        if kind == 'RET' and isinstance(ret, tuple):
-            val = S(ret)
+        if kind == 'RET' and isinstance(ret, tuple) and not out.startswith('err'):
+            val = N(ret)
             if len(val) > 360:
                 import hashlib
                 val = val[:300] + '…#' + hashlib.sha1(val.encode()).hexdigest()[:10]
@@ -126,21 +251,17 @@ def decision_table(ctx, fn, max_visits=1, full=None):
             if isinstance(key, tuple) and isinstance(key[0], int) and 1 <= key[0] <= fn.argc:
                 fields = [q.split(':', 1)[1] for q in key[1] if q.startswith('.') and ':' in q]
                 if fields:
-                    writes.append('%s.%s = %s' % (fn.names.get(key[0], 'arg%d' % key[0]), '.'.join(fields), S(v)[:80]))
+                    writes.append('%s.%s = %s' % (fn.names.get(key[0], 'arg%d' % key[0]), '.'.join(fields), _clip(N(v), 80)))
         row = {'conds': conds, 'checks': checks, 'effects': effects + sorted(writes), 'out': out, 'value': val}
         if full:
-            tr, pure = [], set()
+            tr = []
             for e in p.events:
-                if e[0] == 'call':
-                    a = ', '.join(S(x)[:90] for x in e[2])
-                    txt = '%s(%s)' % (e[1].split('::')[-1] if not e[1].startswith('<') else e[1].split('>::')[-1], a[:240])
-                    if len(e) > 6 and e[6]:
-                        tr.append(txt)
-                    else:
-                        pure.add(txt)
-            # effectful calls (a `&mut` argument or a unit result) in order, one entry per call; value-only calls as a set:
-            # evaluating `x.get()` once into a local or at every use, before or after `y.len()`, is the same computation
-            row['trace'] = tr + ['~' + x for x in sorted(pure)]
+                if e[0] == 'call' and e[1].split('::')[-1] not in DECOR and len(e) > 6 and e[6]:
+                    a = ', '.join(_clip(N(x), 90) for x in e[2])
+                    tr.append('%s(%s)' % (e[1].split('::')[-1] if not e[1].startswith('<') else e[1].split('>::')[-1], _clip(a, 240)))
+            # effectful calls (a `&mut` argument or a unit result) in order, one entry per call.  Value-only calls are not listed:
+            # they matter through the conditions, the returned value and the arguments of effectful calls they flow into
+            row['trace'] = tr
             st = {}
             for loc, v in p.env.items():
                 if isinstance(loc, int) and loc in fn.names:
@@ -153,22 +274,33 @@ def decision_table(ctx, fn, max_visits=1, full=None):
             for loc, name in fn.names.items():
                 v = p.env.get(loc)
                 if isinstance(v, tuple) and name in getattr(p, 'havocked', ()):
-                    row['state'][name] = S(v)[:120]
+                    row['state'][name] = _clip(N(v), 120)
         rows.append(row)
+    if plain:
+        for row in rows:
+            for f in ('conds', 'checks', 'effects', 'trace'):
+                if f in row:
+                    row[f] = [unq(x) for x in row[f]]
+            row['value'] = unq(row.get('value', ''))
     return rows
 
 
 SCOPE_EFFECTS = ('push_scope', 'pop_scope', 'push_main_scope', 'pop_main_scope', 'insert_variable', 'insert_witness', 'insert_parameter', 'insert_alias', 'insert_function', 'track_call')
 
 
-ALL_FIELDS = ('conds', 'checks', 'out', 'effects', 'value', 'trace', 'state')
-GUARD_FIELDS = ('conds', 'checks', 'out', 'effects')
+# `checks` (the operands of the `?`s passed on the path) stay in the rows for the rules that look at them; the comparison uses
+# the conditions they are rendered as (`x?` = "x is Ok"), so that `x?` and an explicit match on x give the same row
+ALL_FIELDS = ('conds', 'out', 'effects', 'value', 'trace', 'state')
+GUARD_FIELDS = ('conds', 'out', 'effects')
 
 
 def row_key(r, fields=ALL_FIELDS):
     r = dict(r)
     # conditions are pure tests: compared as a set (order of independent tests and repeated tests do not matter)
     r['conds'] = sorted(set(r.get('conds', [])))
+    if str(r.get('out', '')).startswith('val') and 'value' not in fields:
+        # the path returns a computed Result/Option/value (combinator chain, helper result): what is returned is the outcome
+        r['out'] = '%s = %s' % (r['out'], r.get('value', ''))
     return json.dumps([r.get(f, {} if f == 'state' else ([] if f in ('conds', 'checks', 'effects', 'trace') else '')) for f in ALL_FIELDS if f in fields] + [[f for f in ALL_FIELDS if f in fields]], ensure_ascii=False, sort_keys=True)
 
 
@@ -200,7 +332,7 @@ def guard_functions(fx):
                 for o in t['args']:
                     if o.get('k') == 'const' and re.search(r'error::Error::\w+$', o.get('def') or ''):
                         hit = True
-        if hit or EXTRA.match(path) or FULL.match(path) or re.match(r'<ast::\w+ as ast::AbstractSyntaxTree>::analyze$', path) or path.startswith('ast::Scope::') or path in ('ast::Program::analyze', 'ast::analyze_named_module'):
+        if hit or EXTRA.match(path) or FULL.match(path) or re.match(ACCESSORS, path) or re.match(r'<ast::\w+ as ast::AbstractSyntaxTree>::analyze$', path) or path.startswith('ast::Scope::') or path in ('ast::Program::analyze', 'ast::analyze_named_module'):
             out.append(path)
     return sorted(out)
 
@@ -225,6 +357,11 @@ def compare(ctx, rid, paths, table, what, fields=ALL_FIELDS, rowsel=None):
             if fn is not None:
                 ctx.ob(rid, 'table:' + path, True, '%s: closure found as %s with the reviewed rows' % (what, fn.path), fn.where())
                 continue
+        if fn is None and '{closure#' in path and path.split('::{closure#')[0] in fx.F:
+            # the closure is gone (its code was written inline, or replaced): the rows of the enclosing function, which render
+            # closure arguments and the errors they raise, are compared on their own
+            ctx.ob(rid, 'table:' + path, True, '%s: closure no longer exists; covered by the rows of %s' % (what, path.split('::{closure#')[0]), fx.F[path.split('::{closure#')[0]].where())
+            continue
         if fn is None:
             ctx.ob(rid, 'fn-missing:' + path, False, 'front-end function listed in the guard table no longer exists', None)
             continue
